@@ -8,6 +8,7 @@
   operations of two renders with `{% provide %}` in which the property fails (known finding).
 -/
 import Djc.Proofs.Render
+import Djc.Proofs.TreeFail
 namespace Djc.Props.C07
 open Djc.Tpl Djc.Render Djc.Proofs.Render
 
@@ -146,5 +147,35 @@ theorem error_path_race :
     -- … but in this interleaving it is gone
     alHas 10 w5.provideCache = false := by
   decide
+
+/-! ### the footprint hypothesis, for the model of the code -/
+
+/-- **A render writes only under ids it generated itself** (the write half of the hypothesis of
+`isolated_of_disjoint_keys`, proved for the model of the code on the tree fragment; the footprint stream checks reads and
+writes on the real code).  Whatever a render of a `{% component %}` tag of the tree fragment does — return or raise, any
+depth of nesting, slots, fills — every entry of `component_context_cache`, `component_renderer_cache` and
+`child_component_attrs` under an id that was *not* generated by this render (older: `k < w.nextId`; or not generated
+yet: `w'.nextId ≤ k`) reads after the render as it read before, and the provide registries are untouched.  The key set
+`K` of a provider-free render is therefore the interval of ids it generated. -/
+theorem render_writes_only_under_its_own_ids (env : Env) (hlib : Djc.Proofs.Tree.GoodLib env) (fuel : Nat)
+    (q : Djc.Proofs.TreeFail.Req) (hq : q.Good env) (w : World) (hw : Djc.Proofs.Tree.WInv w) :
+    let w' := ((renderCompTag env fuel q.name q.kwargs q.only false q.body q.ctx).run.run w).2
+    w.nextId ≤ w'.nextId ∧
+    (∀ k, (k < w.nextId ∨ w'.nextId ≤ k) →
+      alGet k w'.ctxCache = alGet k w.ctxCache ∧ alGet k w'.rendererCache = alGet k w.rendererCache ∧
+      alGet k w'.childAttrs = alGet k w.childAttrs) ∧
+    w'.provideCache = w.provideCache ∧ w'.provideRefs = w.provideRefs ∧ w'.allRefIds = w.allRefIds := by
+  have hf := Djc.Proofs.TreeFail.frame_of_run env hlib fuel q hq w hw
+  refine ⟨hf.next, ?_, hf.prov.1, hf.prov.2.1, hf.prov.2.2⟩
+  intro k hk
+  rcases hk with hk | hk
+  · exact ⟨hf.cc k hk, hf.rc k hk, hf.ca k hk⟩
+  · have hk0 : w.nextId ≤ k := Nat.le_trans hf.next hk
+    exact ⟨by rw [hf.hcc k hk, hw.cc k hk0], by rw [hf.hrc k hk, hw.rc k hk0], by rw [hf.hca k hk, hw.ca k hk0]⟩
+
+/-- non-vacuity: the three-level example page is a request of the fragment, the empty world is well-formed -/
+example : (⟨"page".toList, [], false, [], Djc.Proofs.Tree.exCtx⟩ : Djc.Proofs.TreeFail.Req).Good (Djc.Proofs.Tree.exEnv false) ∧
+    Djc.Proofs.Tree.WInv {} :=
+  ⟨⟨by decide, by decide, by decide, by decide, by decide⟩, Djc.Proofs.Tree.empty_world_inv⟩
 
 end Djc.Props.C07
